@@ -3,9 +3,13 @@ FILE = 'scales/varz.py'
 
 CLASSES = {
   'VarzAggregator': dict(path='VarzAggregator', bases=[], fields={}),
+  # metric name -> (source -> value): defaultdict(lambda: defaultdict(int)); missing entries read as 0
+  'VarzReceiver': dict(path='VarzReceiver', bases=[], fields={}, static_fields={'VARZ_DATA': 'ddict[any,ddict[Source,int]]'}),
 }
 
 PREDICATES = {
+  # the value of one series, 0 when absent (what a read through the defaultdicts returns)
+  'series_value': (['m', 's'], 'ite((m in VarzReceiver.VARZ_DATA) and (s in VarzReceiver.VARZ_DATA[m]), VarzReceiver.VARZ_DATA[m][s], 0)'),
   'same_source_fields': (['a', 'b'], 'a.method == b.method and a.service == b.service and a.endpoint == b.endpoint and a.client_id == b.client_id'),
   'sorted_reals': (['xs'], 'forall((i, j), implies(0 <= i and i <= j and j < len(xs), xs[i] <= xs[j]))'),
 }
@@ -38,6 +42,31 @@ def lemma_source_distinct(a, b):
     requires=['allocated(a) and allocated(b)', 'not same_source_fields(a, b)'],
     ensures=['not result'],
     modifies=[],
+    props=['C18'],
+  ),
+
+  'VerifySource': dict(inline=True),
+  # a counter series is the exact running sum of its increments: one series (metric, source-by-value) changes by
+  # exactly `amount` (negative amounts included), every other series keeps its value
+  'VarzReceiver.IncrementVarz': dict(
+    params={'source': 'Source', 'metric': 'any', 'amount': 'int'}, returns='none',
+    requires=['allocated(source)', 'allocated(VarzReceiver.VARZ_DATA)',
+              'forall(m, "any", implies(m in VarzReceiver.VARZ_DATA, allocated(VarzReceiver.VARZ_DATA[m])))'],
+    ensures=['(metric in VarzReceiver.VARZ_DATA) and (source in VarzReceiver.VARZ_DATA[metric])',
+             'VarzReceiver.VARZ_DATA[metric][source] == old(series_value(metric, source)) + amount',
+             'forall_ref(s2, Source, implies(allocated(s2) and not same_source_fields(s2, source), series_value(metric, s2) == old(series_value(metric, s2))))',
+             'forall(m, "any", implies(m != metric and old(m in VarzReceiver.VARZ_DATA), VarzReceiver.VARZ_DATA[m] == old(VarzReceiver.VARZ_DATA[m])))'],
+    modifies=['ddict[any,ddict[Source,int]]', 'ddict[Source,int]', '$cls'], allocates=True,
+    props=['C18'],
+  ),
+  'VarzReceiver.SetVarz': dict(
+    params={'source': 'Source', 'metric': 'any', 'value': 'int'}, returns='none',
+    requires=['allocated(source)', 'allocated(VarzReceiver.VARZ_DATA)',
+              'forall(m, "any", implies(m in VarzReceiver.VARZ_DATA, allocated(VarzReceiver.VARZ_DATA[m])))'],
+    ensures=['(metric in VarzReceiver.VARZ_DATA) and (source in VarzReceiver.VARZ_DATA[metric])',
+             'VarzReceiver.VARZ_DATA[metric][source] == value',
+             'forall_ref(s2, Source, implies(allocated(s2) and not same_source_fields(s2, source), series_value(metric, s2) == old(series_value(metric, s2))))'],
+    modifies=['ddict[any,ddict[Source,int]]', 'ddict[Source,int]', '$cls'], allocates=True,
     props=['C18'],
   ),
 
